@@ -289,6 +289,8 @@ structure AllRel (Rel : State → State → Prop) (F : Nat) : Prop where
   update1 : ∀ {st v i f d r st'}, update1 F st v i f d = (r, st') → Rel st st'
   callBuiltin : ∀ {st name args d r st'}, callBuiltin F st name args d = (r, st') → Rel st st'
 
+theorem pairEta {α β} {p : α × β} : p = (p.1, p.2) := rfl
+
 section generic
 variable {Rel : State → State → Prop} (S : StepRel Rel)
 include S
@@ -321,14 +323,15 @@ local macro "rel_tac" : tactic => `(tactic| first
   | exact ih.evalMap ‹_› | exact ih.doForms ‹_› | exact ih.letBinds ‹_› | exact ih.macroexpand ‹_›
   | exact ih.apply ‹_› | exact ih.mapLoop ‹_› | exact ih.updateIn ‹_› | exact ih.update1 ‹_›
   | exact ih.callBuiltin ‹_›
-  | exact ih.eval Prod.mk.eta.symm | exact ih.evalLoop Prod.mk.eta.symm | exact ih.evalAst Prod.mk.eta.symm
-  | exact ih.evalList Prod.mk.eta.symm | exact ih.evalMap Prod.mk.eta.symm | exact ih.doForms Prod.mk.eta.symm
-  | exact ih.letBinds Prod.mk.eta.symm | exact ih.macroexpand Prod.mk.eta.symm
-  | exact ih.apply Prod.mk.eta.symm | exact ih.mapLoop Prod.mk.eta.symm | exact ih.updateIn Prod.mk.eta.symm
-  | exact ih.update1 Prod.mk.eta.symm | exact ih.callBuiltin Prod.mk.eta.symm
+  | exact ih.eval pairEta | exact ih.evalLoop pairEta | exact ih.evalAst pairEta
+  | exact ih.evalList pairEta | exact ih.evalMap pairEta | exact ih.doForms pairEta
+  | exact ih.letBinds pairEta | exact ih.macroexpand pairEta
+  | exact ih.apply pairEta | exact ih.mapLoop pairEta | exact ih.updateIn pairEta
+  | exact ih.update1 pairEta | exact ih.callBuiltin pairEta
   | exact S.poll ‹_› | exact S.newScope ‹_› | exact S.newAtom ‹_›
-  | exact S.poll Prod.mk.eta.symm | exact S.newScope Prod.mk.eta.symm | exact S.newAtom Prod.mk.eta.symm
-  | exact S.set _ _ _ _ | exact S.trace _ _ | exact S.marks _ _ | exact S.atoms _ _ _)
+  | exact S.poll pairEta | exact S.newScope pairEta | exact S.newAtom pairEta
+  | exact S.set _ _ _ _ | exact S.trace _ _ | exact S.marks _ _ | exact S.atoms _ _ _
+  | exact S.stepper _ _ _ ‹_› | exact S.newScope rfl | exact S.newAtom rfl | exact S.poll rfl)
 
 set_option hygiene false in
 /-- close `Rel a b` by peeling known steps off the right end -/
@@ -341,20 +344,23 @@ local macro "rel_chain" : tactic => `(tactic| repeat (first
   | refine S.trans ?_ (ih.apply ‹_›) | refine S.trans ?_ (ih.mapLoop ‹_›) | refine S.trans ?_ (ih.updateIn ‹_›)
   | refine S.trans ?_ (ih.update1 ‹_›)
   | refine S.trans ?_ (ih.callBuiltin ‹_›)
-  | refine S.trans ?_ (ih.eval Prod.mk.eta.symm) | refine S.trans ?_ (ih.evalLoop Prod.mk.eta.symm)
-  | refine S.trans ?_ (ih.evalList Prod.mk.eta.symm) | refine S.trans ?_ (ih.evalMap Prod.mk.eta.symm)
-  | refine S.trans ?_ (ih.letBinds Prod.mk.eta.symm) | refine S.trans ?_ (ih.mapLoop Prod.mk.eta.symm)
-  | refine S.trans ?_ (ih.doForms Prod.mk.eta.symm) | refine S.trans ?_ (ih.apply Prod.mk.eta.symm)
-  | refine S.trans ?_ (ih.updateIn Prod.mk.eta.symm) | refine S.trans ?_ (ih.update1 Prod.mk.eta.symm)
-  | refine S.trans ?_ (ih.macroexpand Prod.mk.eta.symm)
+  | refine S.trans ?_ (ih.eval pairEta) | refine S.trans ?_ (ih.evalLoop pairEta)
+  | refine S.trans ?_ (ih.evalList pairEta) | refine S.trans ?_ (ih.evalMap pairEta)
+  | refine S.trans ?_ (ih.letBinds pairEta) | refine S.trans ?_ (ih.mapLoop pairEta)
+  | refine S.trans ?_ (ih.doForms pairEta) | refine S.trans ?_ (ih.apply pairEta)
+  | refine S.trans ?_ (ih.updateIn pairEta) | refine S.trans ?_ (ih.update1 pairEta)
+  | refine S.trans ?_ (ih.macroexpand pairEta)
   | refine S.trans ?_ (S.poll ‹_›) | refine S.trans ?_ (S.newScope ‹_›) | refine S.trans ?_ (S.newAtom ‹_›)
   | refine S.trans ?_ (S.set _ _ _ _) | refine S.trans ?_ (S.trace _ _) | refine S.trans ?_ (S.marks _ _)
-  | refine S.trans ?_ (S.atoms _ _ _)))
+  | refine S.trans ?_ (S.atoms _ _ _) | refine S.trans ?_ (S.stepper _ _ _ ‹_›)
+  | refine S.trans ?_ (S.newScope rfl) | refine S.trans ?_ (S.newAtom rfl) | refine S.trans ?_ (S.poll rfl)))
 
 set_option hygiene false in
 /-- split the goal `Rel st (…).2` to its leaves, then chain -/
 local macro "rel_auto" : tactic => `(tactic| (
-  repeat' split
+  repeat' (first | split | simp only [Bool.not_true, Bool.not_false, Bool.false_eq_true, ↓reduceIte])
+  all_goals (try injections)
+  all_goals (try subst_vars)
   all_goals (try dsimp only)
   all_goals rel_chain))
 
@@ -372,3 +378,470 @@ theorem macroexpand_step {st env ast d} : Rel st (macroexpand (F + 1) st env ast
 
 theorem apply_step {st f args d} : Rel st (apply (F + 1) st f args d).2 := by
   rw [apply.eq_def]; fuel_split; rel_auto
+
+theorem evalList_step {st env xs d} : Rel st (evalList (F + 1) st env xs d).2 := by
+  rw [evalList.eq_def]; rel_auto
+
+theorem evalMap_step {st env xs d} : Rel st (evalMap (F + 1) st env xs d).2 := by
+  rw [evalMap.eq_def]; rel_auto
+
+theorem letBinds_step {st env bs a1 d} : Rel st (letBinds (F + 1) st env bs a1 d).2 := by
+  rw [letBinds.eq_def]; rel_auto
+
+theorem mapLoop_step {st f xs d} : Rel st (mapLoop (F + 1) st f xs d).2 := by
+  rw [mapLoop.eq_def]; rel_auto
+
+theorem updateIn_step {st v path f d} : Rel st (updateIn (F + 1) st v path f d).2 := by
+  rw [updateIn.eq_def]; rel_auto
+
+theorem update1_step {st v i f d} : Rel st (update1 (F + 1) st v i f d).2 := by
+  rw [update1.eq_def]; rel_auto
+
+omit S ih in
+theorem rel_ite {α} {st : State} {c : Prop} [Decidable c] {a b : α × State}
+    (ha : c → Rel st a.2) (hb : ¬c → Rel st b.2) : Rel st (if c then a else b).2 := by
+  split
+  · exact ha ‹_›
+  · exact hb ‹_›
+
+theorem callBuiltin_step {st name args d} : Rel st (callBuiltin (F + 1) st name args d).2 := by
+  rw [callBuiltin.eq_def]; fuel_split; dsimp only
+  repeat' (refine rel_ite (fun _ => ?_) (fun _ => ?_))
+  all_goals rel_auto
+
+theorem doForms_step {st env lst fr kl d} : Rel st (doForms (F + 1) st env lst fr kl d).2 := by
+  rw [doForms.eq_def]; fuel_split; dsimp only; rel_auto
+
+theorem eval_step {st env ast d} : Rel st (eval (F + 1) st env ast d).2 := by
+  rw [eval.eq_def]; fuel_split; dsimp only; rel_auto
+
+omit ih in
+theorem outing1Defer_rel (st : State) : Rel st (outing1Defer st) := by
+  unfold outing1Defer
+  split
+  · split
+    · exact S.stepper _ _ _ ‹_›
+    · exact S.refl _
+  · exact S.refl _
+
+set_option linter.unusedSectionVars false in
+theorem continueWith_rel {st env ast d} : Rel st (continueWith F d st env ast).2 := by
+  unfold continueWith; rel_auto
+
+set_option hygiene false in
+/-- `rel_chain` extended with the continuation of the loop -/
+local macro "rel_auto'" : tactic => `(tactic| (
+  repeat' (first | split | simp only [Bool.not_true, Bool.not_false, Bool.false_eq_true, ↓reduceIte])
+  all_goals (try injections)
+  all_goals (try subst_vars)
+  all_goals (try dsimp only at *)
+  all_goals (first
+    | (refine S.trans ?_ (continueWith_rel S ih); rel_chain)
+    | (refine S.trans ?_ (outing1Defer_rel S _); rel_chain)
+    | rel_chain)))
+
+theorem defArm_rel {st env a1 a2 ast d} : Rel st (defArm F st env a1 a2 ast d).2 := by
+  unfold defArm; rel_auto'
+
+theorem letArm_rel {st env lst a1 d} : Rel st (letArm F st env lst a1 d).2 := by
+  unfold letArm; rel_auto'
+
+theorem defmacroArm_rel {st env a1 a2 ast d} : Rel st (defmacroArm F st env a1 a2 ast d).2 := by
+  unfold defmacroArm; rel_auto'
+
+theorem handlerStage_rel {st0 parts env d} {rb : R} (h : Rel st0 rb.2) :
+    Rel st0 (handlerStage F parts env d rb).2 := by
+  obtain ⟨r, st⟩ := rb
+  unfold handlerStage; rel_auto'
+
+theorem finallyStage_rel {st0 parts env d} {rh : R} (h : Rel st0 rh.2) :
+    Rel st0 (finallyStage F parts env d rh).2 := by
+  obtain ⟨r, st⟩ := rh
+  unfold finallyStage; rel_auto'
+
+theorem tryArm_rel {st env parts d} : Rel st (tryArm F st env parts d).2 :=
+  finallyStage_rel S ih (handlerStage_rel S ih (ih.doForms pairEta))
+
+theorem tryForm_rel {st env lst ops ast d} : Rel st (tryForm F st env lst ops ast d).2 := by
+  unfold tryForm
+  split
+  · exact S.refl _
+  · split
+    · exact S.refl _
+    · exact tryArm_rel S ih
+
+theorem doArm_rel {st env lst d} : Rel st (doArm F st env lst d).2 := by
+  unfold doArm; rel_auto'
+
+theorem ifArm_rel {st env lst a1 a2 d} : Rel st (ifArm F st env lst a1 a2 d).2 := by
+  unfold ifArm; rel_auto'
+
+omit ih in
+theorem fnArm_rel {st env lst a1 ast pos} : Rel st (fnArm st env lst a1 ast pos).2 := by
+  unfold fnArm; split <;> exact S.refl _
+
+theorem callArm_rel {st el ast d} : Rel st (callArm F st el ast d).2 := by
+  unfold callArm; rel_auto'
+
+theorem appArm_rel {st env lst ast d} : Rel st (appArm F st env lst ast d).2 := by
+  unfold appArm
+  split
+  · exact S.trans (ih.evalList ‹_›) (callArm_rel S ih)
+  · exact ih.evalList ‹_›
+  · exact ih.evalList ‹_›
+
+theorem dispatch_rel {st env ast a0 ops pos d} : Rel st (dispatch F st env ast a0 ops pos d).2 := by
+  unfold dispatch; dsimp only
+  repeat' (refine rel_ite (fun _ => ?_) (fun _ => ?_))
+  all_goals first
+    | exact S.refl _
+    | exact defArm_rel S ih | exact letArm_rel S ih | exact continueWith_rel S ih
+    | exact defmacroArm_rel S ih | exact ih.macroexpand pairEta | exact tryForm_rel S ih
+    | exact doArm_rel S ih | exact ifArm_rel S ih | exact fnArm_rel S | exact appArm_rel S ih
+    | (split <;> first | exact S.refl _ | exact tryArm_rel S ih)
+
+theorem afterExpand_rel {st env ast d} : Rel st (afterExpand F st env ast d).2 := by
+  unfold afterExpand
+  split
+  · exact S.refl _
+  · exact dispatch_rel S ih
+  · exact ih.evalAst pairEta
+
+theorem liveBody_rel {st env ast d} : Rel st (liveBody F st env ast d).2 := by
+  unfold liveBody
+  split
+  · split
+    · exact ih.macroexpand ‹_›
+    · exact ih.macroexpand ‹_›
+    · exact S.trans (ih.macroexpand ‹_›) (afterExpand_rel S ih)
+  · exact ih.evalAst pairEta
+
+theorem evalLoop_step {st env ast d} : Rel st (evalLoop (F + 1) st env ast d).2 := by
+  rw [evalLoop_succ]; unfold loopBody
+  split
+  split
+  · exact S.poll ‹_›
+  · exact S.trans (S.poll ‹_›) (liveBody_rel S ih)
+
+omit S ih in
+theorem ofSnd {α} {st st' : State} {p : α × State} {r : α} (h : Rel st p.2) (e : p = (r, st')) : Rel st st' := by
+  subst e; exact h
+
+theorem allRel_succ : AllRel Rel (F + 1) where
+  eval h := ofSnd (eval_step S ih) h
+  evalLoop h := ofSnd (evalLoop_step S ih) h
+  evalAst h := ofSnd (evalAst_step S ih) h
+  evalList h := ofSnd (evalList_step S ih) h
+  evalMap h := ofSnd (evalMap_step S ih) h
+  doForms h := ofSnd (doForms_step S ih) h
+  letBinds h := ofSnd (letBinds_step S ih) h
+  macroexpand h := ofSnd (macroexpand_step S ih) h
+  apply h := ofSnd (apply_step S ih) h
+  mapLoop h := ofSnd (mapLoop_step S ih) h
+  updateIn h := ofSnd (updateIn_step S ih) h
+  update1 h := ofSnd (update1_step S ih) h
+  callBuiltin h := ofSnd (callBuiltin_step S ih) h
+
+omit ih in
+/-- **Generic invariant**: a step relation holds across every function of the mutual block. -/
+theorem allRel : ∀ F, AllRel Rel F
+  | 0 => allRel_zero S
+  | F + 1 => allRel_succ S (allRel F)
+
+end generic
+
+/-! ### instances -/
+
+/-- what never changes / only grows: no stepper is ever installed, `cancelAt` is fixed, `ticks` only grow -/
+def Frame (a b : State) : Prop :=
+  (a.stepper = none → b.stepper = none) ∧ b.cancelAt = a.cancelAt ∧ a.ticks ≤ b.ticks
+
+theorem frame_stepRel : StepRel Frame where
+  refl _ := ⟨id, rfl, Nat.le_refl _⟩
+  trans h1 h2 := ⟨fun h => h2.1 (h1.1 h), h2.2.1.trans h1.2.1, Nat.le_trans h1.2.2 h2.2.2⟩
+  poll h := by cases h; exact ⟨id, rfl, Nat.le_succ _⟩
+  set st env k v := by
+    unfold State.set; split
+    · exact ⟨id, rfl, Nat.le_refl _⟩
+    · exact ⟨id, rfl, Nat.le_refl _⟩
+  newScope h := by cases h; exact ⟨id, rfl, Nat.le_refl _⟩
+  newAtom h := by cases h; exact ⟨id, rfl, Nat.le_refl _⟩
+  trace _ _ := ⟨id, rfl, Nat.le_refl _⟩
+  marks _ _ := ⟨id, rfl, Nat.le_refl _⟩
+  atoms _ _ _ := ⟨id, rfl, Nat.le_refl _⟩
+  stepper st sp sp' h := ⟨fun h' => (by rw [h] at h'; cases h'), rfl, Nat.le_refl _⟩
+
+theorem frame (F : Nat) : AllRel Frame F := allRel frame_stepRel F
+
+theorem Frame.cancelled {a b : State} (h : Frame a b) (hc : Cancelled a) : Cancelled b := by
+  obtain ⟨n, h1, h2⟩ := hc
+  exact ⟨n, by rw [h.2.1, h1], Nat.le_trans h2 h.2.2⟩
+
+/-! ## §3 cancellation (C07) -/
+
+/-- every iteration of the loop polls first: from a cancelled state it does nothing else -/
+theorem evalLoop_cancelled {st : State} (h : Cancelled st) (F env ast d) :
+    evalLoop (F + 1) st env ast d = (.err (timeoutErr ast), tick st) := by
+  rw [evalLoop_succ]; unfold loopBody; rw [poll_cancelled h]; rfl
+
+theorem eval_noStepper {st : State} (hs : st.stepper = none) (F env ast d) :
+    eval (F + 1) st env ast d = evalLoop F st env ast d := by
+  rw [eval]; split
+  · rfl
+  · rename_i h; rw [hs] at h; cases h
+
+theorem eval_cancelled {st : State} (h : Cancelled st) (hs : st.stepper = none) (F env ast d) :
+    eval (F + 2) st env ast d = (.err (timeoutErr ast), tick st) := by
+  rw [eval_noStepper hs, evalLoop_cancelled h]
+
+theorem evalList_cancelled {st : State} (h : Cancelled st) (hs : st.stepper = none) (F env x xs d) :
+    evalList (F + 3) st env (x :: xs) d = (.err (timeoutErr x), tick st) := by
+  rw [evalList, eval_cancelled h hs]
+
+theorem evalMap_cancelled {st : State} (h : Cancelled st) (hs : st.stepper = none) (F env k x r d) :
+    evalMap (F + 3) st env ((k, x) :: r) d = (.err (timeoutErr x), tick st) := by
+  rw [evalMap, eval_cancelled h hs]
+
+/-- `do()` without a stepper has no epilogue -/
+theorem doForms_noStepper {st : State} (hs : st.stepper = none) (F env lst fr kl d) :
+    doForms (F + 1) st env lst fr kl d =
+      if lst.length ≤ fr then (.ok .nil, st) else
+        match evalList F st env (if kl then (lst.drop fr).dropLast else lst.drop fr) d with
+        | (.ok vs, st) => if kl then (.ok (lst.getLast?.getD .nil), st) else (.ok (vs.getLast?.getD .nil), st)
+        | (.err e, st) => (.err e, st)
+        | (.oof, st) => (.oof, st) := by
+  rw [doForms]; simp only [hs, Bool.false_eq_true, ↓reduceIte]
+  split
+  · rfl
+  · cases kl <;> simp only [Bool.false_eq_true, ↓reduceIte] <;> split <;> simp_all
+
+theorem doForms_cancelled {st : State} (h : Cancelled st) (hs : st.stepper = none) (F env x xs d) :
+    doForms (F + 4) st env (x :: xs) 0 false d = (.err (timeoutErr x), tick st) := by
+  rw [doForms_noStepper hs]
+  simp [evalList_cancelled h hs]
+
+theorem letBinds_cancelled {st : State} (h : Cancelled st) (hs : st.stepper = none) (F env s p x rest a1 d) :
+    letBinds (F + 3) st env (.sym s p :: x :: rest) a1 d = (.err (timeoutErr x), tick st) := by
+  rw [letBinds, eval_cancelled h hs]
+
+/-- from a cancelled state: at most one poll, and nothing else happens to the state -/
+def AtMostOnePoll (st st' : State) : Prop := st' = st ∨ st' = tick st
+
+theorem amop_of_eq {α} {st st' : State} {p : α × State} {r : α}
+    (h : AtMostOnePoll st p.2) (e : p = (r, st')) : AtMostOnePoll st st' := by
+  subst e; exact h
+
+theorem evalLoop_cancelled_any {st : State} (h : Cancelled st) (F env ast d) :
+    evalLoop F st env ast d = (.oof, st) ∨ evalLoop F st env ast d = (.err (timeoutErr ast), tick st) := by
+  cases F with
+  | zero => left; rw [evalLoop]
+  | succ F => right; exact evalLoop_cancelled h F env ast d
+
+theorem eval_cancelled_any {st : State} (h : Cancelled st) (hs : st.stepper = none) (F env ast d) :
+    eval F st env ast d = (.oof, st) ∨ eval F st env ast d = (.err (timeoutErr ast), tick st) := by
+  cases F with
+  | zero => left; rw [eval]
+  | succ F => rw [eval_noStepper hs]; exact evalLoop_cancelled_any h F env ast d
+
+theorem evalList_cancelled_any {st : State} (h : Cancelled st) (hs : st.stepper = none) (F env xs d) :
+    AtMostOnePoll st (evalList F st env xs d).2 := by
+  cases F with
+  | zero => left; rw [evalList]
+  | succ F =>
+    cases xs with
+    | nil => left; rw [evalList]
+    | cons x xs =>
+      rw [evalList]
+      rcases eval_cancelled_any h hs F env x (d + 1) with e | e <;> rw [e]
+      · left; rfl
+      · right; rfl
+
+theorem evalMap_cancelled_any {st : State} (h : Cancelled st) (hs : st.stepper = none) (F env xs d) :
+    AtMostOnePoll st (evalMap F st env xs d).2 := by
+  cases F with
+  | zero => left; rw [evalMap]
+  | succ F =>
+    cases xs with
+    | nil => left; rw [evalMap]
+    | cons x xs =>
+      obtain ⟨k, x⟩ := x
+      rw [evalMap]
+      rcases eval_cancelled_any h hs F env x (d + 1) with e | e <;> rw [e]
+      · left; rfl
+      · right; rfl
+
+theorem evalAst_cancelled_any {st : State} (h : Cancelled st) (hs : st.stepper = none) (F env ast d) :
+    AtMostOnePoll st (evalAst F st env ast d).2 := by
+  cases F with
+  | zero => left; rw [evalAst]
+  | succ F =>
+    rw [evalAst.eq_def]
+    split
+    · rename_i heq; cases heq
+    rename_i heq; cases heq
+    split
+    · split <;> (left; rfl)
+    · split <;> (rename_i heq; exact amop_of_eq (evalList_cancelled_any h hs F _ _ _) heq)
+    · split <;> (rename_i heq; exact amop_of_eq (evalList_cancelled_any h hs F _ _ _) heq)
+    · split <;> (rename_i heq; exact amop_of_eq (evalMap_cancelled_any h hs F _ _ _) heq)
+    · left; rfl
+
+theorem doForms_cancelled_any {st : State} (h : Cancelled st) (hs : st.stepper = none) (F env lst fr kl d) :
+    AtMostOnePoll st (doForms F st env lst fr kl d).2 := by
+  cases F with
+  | zero => left; rw [doForms]
+  | succ F =>
+    rw [doForms_noStepper hs]
+    split
+    · left; rfl
+    · split <;> (rename_i heq; have t := amop_of_eq (evalList_cancelled_any h hs F _ _ _) heq)
+      · split <;> exact t
+      · exact t
+      · exact t
+
+theorem letBinds_cancelled_any {st : State} (h : Cancelled st) (hs : st.stepper = none) (F env bs a1 d) :
+    AtMostOnePoll st (letBinds F st env bs a1 d).2 := by
+  cases F with
+  | zero => left; rw [letBinds]
+  | succ F =>
+    match bs with
+    | [] => left; rw [letBinds]
+    | [_] => left; rw [letBinds]
+    | b :: x :: rest =>
+      cases b
+      case sym s p =>
+        rw [letBinds]
+        rcases eval_cancelled_any h hs F env x (d + 1) with e | e <;> rw [e]
+        · left; rfl
+        · right; rfl
+      all_goals (rw [letBinds]; (left; rfl); (intro _ _ hh; cases hh))
+
+
+/-! ### handlers and finally bodies run from a cancelled state -/
+
+theorem bindParams_one {x : String} (hx : x ≠ "&") (p : Option Pos) (v : Val) :
+    bindParams (.list [.sym x p] none) [v] = .ok [(x, v)] := by
+  simp only [bindParams]
+  rw [bindLoop.eq_def]
+  simp [bindLoop, ainsert]
+
+theorem Cancelled.newScope {st : State} (h : Cancelled st) (o data) : Cancelled (st.newScope o data).1 := h
+
+/-- a catch handler entered after the deadline: its first form times out after one poll, nothing else runs -/
+theorem handler_after_cancel {s1 : State} (hc : Cancelled s1) (hs : s1.stepper = none)
+    (F : Nat) (parts : TryParts) (env d : Nat) (e : Err) {x : String} (hx : x ≠ "&") (p : Option Pos)
+    (h0 : Val) (hrest : List Val)
+    (hb : parts.catchBind = some (.sym x p)) (hd : parts.catchDo = some (h0 :: hrest)) :
+    handlerStage (F + 4) parts env d (.err e, s1) =
+      (.err (timeoutErr h0), tick (s1.newScope env [(x, caughtValue e)]).1) := by
+  simp only [handlerStage, hb, hd, bindParams_one hx]
+  exact doForms_cancelled (hc.newScope env _) hs F _ h0 hrest d
+
+/-- a finally body entered after the deadline: one poll, then the pending result is returned unchanged -/
+theorem finally_after_cancel {s2 : State} (hc : Cancelled s2) (hs : s2.stepper = none)
+    (F : Nat) (parts : TryParts) (env d : Nat) (r : Res Val) (hr : r ≠ .oof) (f0 : Val) (frest : List Val)
+    (hf : parts.finallyDo = some (f0 :: frest)) :
+    finallyStage (F + 4) parts env d (r, s2) = (r, tick s2) := by
+  simp only [finallyStage, hf, doForms_cancelled hc hs]
+
+/-! ## §4 one-step equations of a live (not cancelled) loop iteration -/
+
+/-- the next poll does not report cancellation -/
+def Live (st : State) : Prop := ∀ n, st.cancelAt = some n → st.ticks < n
+
+theorem live_of_none {st : State} (hc : st.cancelAt = none) : Live st := by
+  intro n h; rw [hc] at h; cases h
+
+theorem poll_of_live {st : State} (h : Live st) : st.poll = (false, tick st) := by
+  unfold State.poll tick
+  cases hc : st.cancelAt with
+  | none => rfl
+  | some n => simp [Nat.not_le.mpr (h n hc)]
+
+theorem evalLoop_live {st : State} (hc : Live st) (F env ast d) :
+    evalLoop (F + 1) st env ast d = liveBody F (tick st) env ast d := by
+  rw [evalLoop_succ]; unfold loopBody; rw [poll_of_live hc]; rfl
+
+/-- a list form whose head symbol is not a macro goes to the special-form dispatch after one poll -/
+theorem evalLoop_dispatch {st : State} (hc : Live st) {env : Nat} {s : String}
+    (hm : NotMacro st env s) (F p ops pos d) :
+    evalLoop (F + 2) st env (.list (.sym s p :: ops) pos) d =
+      dispatch (F + 1) (tick st) env (.list (.sym s p :: ops) pos) (.sym s p) ops pos d := by
+  rw [evalLoop_live hc]
+  simp only [liveBody, macroexpand_notMacro hm.tick, afterExpand]
+
+/-- the same for a head that is not a symbol -/
+theorem evalLoop_dispatch_nonSym {st : State} (hc : Live st) (env : Nat) (a0 : Val)
+    (h0 : ∀ s p, a0 ≠ .sym s p) (F ops pos d) :
+    evalLoop (F + 2) st env (.list (a0 :: ops) pos) d =
+      dispatch (F + 1) (tick st) env (.list (a0 :: ops) pos) a0 ops pos d := by
+  rw [evalLoop_live hc]
+  simp only [liveBody, macroexpand_nonSymHead _ _ _ _ a0 _ _ h0, afterExpand]
+
+theorem dispatch_try (F st env ast p ops pos d) :
+    dispatch F st env ast (.sym "try" p) ops pos d = tryForm F st env (.sym "try" p :: ops) ops ast d := by
+  simp [dispatch]
+
+theorem dispatch_do (F st env ast p ops pos d) :
+    dispatch F st env ast (.sym "do" p) ops pos d = doArm F st env (.sym "do" p :: ops) d := by
+  simp [dispatch]
+
+theorem dispatch_if (F st env ast p ops pos d) :
+    dispatch F st env ast (.sym "if" p) ops pos d =
+      ifArm F st env (.sym "if" p :: ops) (ops.getD 0 .nil) (ops.getD 1 .nil) d := by
+  simp [dispatch]
+
+theorem dispatch_let (F st env ast p ops pos d) :
+    dispatch F st env ast (.sym "let" p) ops pos d = letArm F st env (.sym "let" p :: ops) (ops.getD 0 .nil) d := by
+  simp [dispatch]
+
+theorem dispatch_def (F st env ast p ops pos d) :
+    dispatch F st env ast (.sym "def" p) ops pos d = defArm F st env (ops.getD 0 .nil) (ops.getD 1 .nil) ast d := by
+  simp [dispatch]
+
+theorem dispatch_fn (F st env ast p ops pos d) :
+    dispatch F st env ast (.sym "fn" p) ops pos d = fnArm st env (.sym "fn" p :: ops) (ops.getD 0 .nil) ast pos := by
+  simp [dispatch]
+
+theorem dispatch_quasiquote (F st env ast p ops pos d) :
+    dispatch F st env ast (.sym "quasiquote" p) ops pos d = continueWith F d st env (quasiquote (ops.getD 0 .nil)) := by
+  simp [dispatch]
+
+theorem dispatch_quote (F st env ast p ops pos d) :
+    dispatch F st env ast (.sym "quote" p) ops pos d = (.ok (ops.getD 0 .nil), st) := by
+  simp [dispatch]
+
+/-- any head that is not one of the eleven special-form symbols is an application -/
+theorem dispatch_app (F st env ast s p ops pos d) (hs : s ∉ specialForms) :
+    dispatch F st env ast (.sym s p) ops pos d = appArm F st env (.sym s p :: ops) ast d := by
+  simp only [specialForms, List.mem_cons, List.not_mem_nil, or_false, not_or] at hs
+  simp [dispatch, hs]
+
+theorem dispatch_app_nonSym (F st env ast a0 ops pos d) (h0 : ∀ s p, a0 ≠ .sym s p) :
+    dispatch F st env ast a0 ops pos d = appArm F st env (a0 :: ops) ast d := by
+  cases a0 <;> first | exact absurd rfl (h0 _ _) | simp [dispatch]
+
+theorem continueWith_noStepper {st : State} (hs : st.stepper = none) (F d env ast) :
+    continueWith F d st env ast = evalLoop F st env ast d := by
+  simp [continueWith, hs]
+
+theorem evalLoop_cancelled_amop {st : State} (h : Cancelled st) (F env ast d) :
+    AtMostOnePoll st (evalLoop F st env ast d).2 := by
+  rcases evalLoop_cancelled_any h F env ast d with e | e <;> rw [e]
+  · left; rfl
+  · right; rfl
+
+theorem eval_cancelled_amop {st : State} (h : Cancelled st) (hs : st.stepper = none) (F env ast d) :
+    AtMostOnePoll st (eval F st env ast d).2 := by
+  rcases eval_cancelled_any h hs F env ast d with e | e <;> rw [e]
+  · left; rfl
+  · right; rfl
+
+theorem AtMostOnePoll.same {st st' : State} (h : AtMostOnePoll st st') :
+    st'.trace = st.trace ∧ st'.marks = st.marks ∧ st'.scopes = st.scopes ∧ st'.atoms = st.atoms := by
+  rcases h with e | e <;> rw [e] <;> exact ⟨rfl, rfl, rfl, rfl⟩
+
+theorem AtMostOnePoll.ticks {st st' : State} (h : AtMostOnePoll st st') : st'.ticks ≤ st.ticks + 1 := by
+  rcases h with e | e <;> rw [e] <;> simp [tick]
+
+end LispModel.Proofs.EvalCancel
